@@ -115,11 +115,11 @@ DepthOK(r) == \E F \in {St(r.t, r.st, r.o)} :
             LET ph == <<D!DZero, D!DZero, d, One>>
                 sc == Add(Mul(Add(F.f, F.n), Abs(d)), Mul(Two, Mul(F.f, F.n)))
             IN  AbsLe(Sb(Mul(FC!ClipNum(F, ph)[3], zpd), Mul(zpn, Mul(FC!Dz(F), FC!ClipW(F, ph)))), Mul(D!DScale(E(t), 2), Mul(sc, Abs(zpd))))
-        zdiff == D!DInt(r.zmax - r.zmin)
-        zrel(zq, d) == rel(d, Sb(D!DInt(2 * (zq - r.zmin)), zdiff), zdiff)
+        zdiff == Sb(D!DInt(r.zmax), D!DInt(r.zmin))                      \* (the range may be wider than the checker's integers)
+        zrel(zq, d) == rel(d, Sb(D!DScale(Sb(D!DInt(zq), D!DInt(r.zmin)), 1), zdiff), zdiff)
     IN  FC!WellFormed(F) =>
         /\ rel(S(t, r.d), zp, One)                                                   \* agrees with the matrix's depth
-        /\ AbsLe(Sb(D!DInt(r.Z - r.zmin), Mul(zn, zdiff)), Add(One, Mul(E(t), zdiff)))   \* DepthToZ: truncation of zn * (zmax - zmin)
+        /\ AbsLe(Sb(Sb(D!DInt(r.Z), D!DInt(r.zmin)), Mul(zn, zdiff)), Add(One, Mul(E(t), zdiff)))   \* DepthToZ: truncation of zn * (zmax - zmin)
         /\ zrel(r.Z, S(t, r.d2)) /\ zrel(r.Zq, S(t, r.dq))                           \* ZToDepth inverts it
 
 SetFovOK(r) == \E F \in {St(r.t, r.st, r.o)} :
